@@ -407,7 +407,20 @@ fn perturb(rng: &mut Rng, d: &mut DocG, out: &mut Out) {
         let op = rng.below(10);
         let (w, _) = wrap(rng, RObj::one(RKey::Matches(format!("u{i}"))), op);
         let old = std::mem::take(&mut d.core.utils[j].1);
-        d.core.utils[j].1 = if rng.chance(1, 2) { RObj::one(RKey::All(vec![old, w])) } else { RObj::one(RKey::Any(vec![old, w])) };
+        d.core.utils[j].1 = match rng.below(4) {
+          0 => RObj::one(RKey::All(vec![old, w])),
+          1 => RObj::one(RKey::Any(vec![old, w])),
+          // the back edge in a composite key NEXT TO a `matches` key of the same object
+          _ => {
+            let side = if j > 0 { format!("u{}", rng.below(j)) } else { "g0".to_string() };
+            let comp = match rng.below(3) {
+              0 => RKey::Not(Box::new(w)),
+              1 => RKey::All(vec![old, w]),
+              _ => RKey::Any(vec![w, old]),
+            };
+            RObj { keys: vec![RKey::Matches(side), comp] }
+          }
+        };
       }
     }
     3 => {
@@ -746,7 +759,20 @@ fn converse(rng: &mut Rng, out: &mut Out, n: usize) {
         trans.push(TransG { key, source: format!("${src}"), rewriters: None, start: Some(rng.below(3)), end: if rng.chance(1, 2) { Some(2 + rng.below(3)) } else { None } });
       }
     }
+    // constraints that capture NEW variables (each on its own variable), used by the fix
+    let mut cons: Vec<(String, RObj)> = vec![];
+    let mut cons_vars: Vec<(String, String)> = vec![]; // (new variable, the variable it equals)
+    if singles.len() == 2 && rng.chance(1, 2) {
+      for (i, s) in singles.iter().enumerate() {
+        if i == 0 || rng.chance(2, 3) {
+          let nv = format!("C{s}");
+          cons.push((s.to_string(), RObj::one(RKey::Pattern { text: format!("${nv}"), selector: None, strictness: None })));
+          cons_vars.push((nv, s.to_string()));
+        }
+      }
+    }
     let mut pool: Vec<(String, bool)> = singles.iter().map(|s| (s.to_string(), false)).collect();
+    pool.extend(cons_vars.iter().map(|c| (c.0.clone(), false)));
     if let Some(m) = multi {
       pool.push((m.to_string(), true));
     }
@@ -759,7 +785,10 @@ fn converse(rng: &mut Rng, out: &mut Out, n: usize) {
       tpl.push_str([")", "", " ", "x", "_", "9", ";", "é"][rng.below(8)]);
     }
     let object = it % 2 == 1;
-    let d = DocG { core: CoreG { rule: RObj::one(RKey::Pattern { text: pat.into(), selector: None, strictness: None }), utils: vec![], cons: vec![], trans: if trans.is_empty() { None } else { Some(trans.clone()) }, fix: Some(FixG { template: tpl.clone(), object, expansions: vec![] }) }, rewriters: None };
+    let d = DocG { core: CoreG { rule: RObj::one(RKey::Pattern { text: pat.into(), selector: None, strictness: None }), utils: vec![], cons: cons.clone(), trans: if trans.is_empty() { None } else { Some(trans.clone()) }, fix: Some(FixG { template: tpl.clone(), object, expansions: vec![] }) }, rewriters: None };
+    if cons.len() > 1 {
+      out.count("converse:two-capturing-constraints");
+    }
     let yaml = d.yaml();
     let loaded = catch_unwind(AssertUnwindSafe(|| from_yaml_string::<SupportLang>(&yaml, &Default::default())));
     out.checked();
@@ -787,6 +816,12 @@ fn converse(rng: &mut Rng, out: &mut Out, n: usize) {
       for s in &singles {
         if let Some(n) = env.get_match(s) {
           val.insert(s.to_string(), n.text().to_string());
+        }
+      }
+      // a constraint `X: {pattern: $CX}` binds CX to the node X is bound to
+      for (nv, s) in &cons_vars {
+        if let Some(x) = val.get(s).cloned() {
+          val.insert(nv.clone(), x);
         }
       }
       if let Some(m) = multi {
